@@ -195,6 +195,17 @@ def live_configs(ctx):
                     users = (USER_SIZES[(k * 3) % len(USER_SIZES)], USER_SIZES[(k * 5 + 1) % len(USER_SIZES)]) if v else (None, None)
                     pads = (PADS[k % 3], PADS[(k // 3) % 3]) if ver == (3, 4) else ("none", "none")
                     yield dict(ver=ver, cipher=cipher, etm=etm, rsl=rsl, users=users, pads=pads, cred="rsa")
+    # resumed connections (session ID and ticket up to TLS 1.2, PSK ticket in TLS 1.3) with asymmetric limits:
+    # the extension is negotiated afresh in the abbreviated handshake
+    for ver in R.VERSIONS:
+        cipher = "aes128gcm" if ver == (3, 4) else ("aes128" if (k + ver[1]) % 2 else "rc4")
+        mechs = ["psk"] if ver == (3, 4) else (["id", "ticket"] if ver > (3, 0) else ["id"])
+        pairs = [("default", 700), (300, "default"), (16385, 64), (1000, 2000)]
+        for n, mech in enumerate(mechs):
+            for m, rsl in enumerate(pairs if thorough else [pairs[(k + n) % 2], pairs[2 + (k + n) % 2]]):
+                k += 1
+                yield dict(ver=ver, cipher=cipher, etm=bool(k % 2), rsl=rsl, users=(None, None),
+                           pads=("none", "none"), cred="rsa", resume=mech)
     if thorough:
         # every suite negotiable with RSA / ECDSA credentials
         for (suite, vers, c, m, kx, cred) in R.suite_matrix():
@@ -268,8 +279,9 @@ def run_live(ctx, cfg, script=None, record=True):
     lc = ctx.lean()
     rng = ctx.rng
     # HandshakeSettings.padding_cb is what an application sets; it has to reach RecordLayer.padding_cb
-    label = "%d.%d/%s/etm=%s/rsl=%s/users=%s/pads=%s" % (cfg["ver"][0], cfg["ver"][1], cfg["cipher"], cfg["etm"],
-                                                        cfg["rsl"], cfg["users"], cfg["pads"])
+    label = "%d.%d/%s/etm=%s/rsl=%s/users=%s/pads=%s%s" % (cfg["ver"][0], cfg["ver"][1], cfg["cipher"], cfg["etm"],
+                                                          cfg["rsl"], cfg["users"], cfg["pads"],
+                                                          "/resumed-by-" + cfg["resume"] if cfg.get("resume") else "")
     L = R.connect(dict(cfg, padding_cbs=(T.pad_cb(cfg["pads"][0]), T.pad_cb(cfg["pads"][1]))))
     if L.client.state != "done" or L.server.state != "done":
         # an honest peer's record rejected by the record layer during the handshake is this property's business
@@ -290,6 +302,9 @@ def run_live(ctx, cfg, script=None, record=True):
     txdir = {"client": "c2s", "server": "s2c"}
     ctx.count("live:version:%d.%d" % cfg["ver"])
     ctx.count("live:cipher:" + cfg["cipher"])
+    if cfg.get("resume"):
+        both = bool(conns["client"].resumed) and bool(conns["server"].resumed)
+        ctx.count("live:resume-%s:%s" % (cfg["resume"], "resumed" if both else "full-handshake-instead"))
     if cfg.get("suite") is not None and conns["client"].session.cipherSuite != cfg["suite"]:
         ctx.count("live:other-suite-negotiated")
     # user record sizes
@@ -480,6 +495,24 @@ def run_live(ctx, cfg, script=None, record=True):
         ctx.case(key=("live-ws", label, who, len(data), tuple(changes)), sample=None)
         ctx.count("live:suspended-writes")
 
+    def do_keyupdate(who, requested):
+        """TLS 1.3 KeyUpdate sent by `who`; the peer processes it (and answers when requested)"""
+        from tlslite.constants import KeyUpdateMessageType
+        ops.append(("ku", who, bool(requested)))
+        mt = KeyUpdateMessageType.update_requested if requested else KeyUpdateMessageType.update_not_requested
+        r = L.op(who, conns[who].send_keyupdate_request(mt))
+        if r[0] != "ok":
+            viol("c01:keyupdate-failed", "sending KeyUpdate failed: %s" % (R.lab.exc_class(r[1]) if r[0] == "error" else r[0]))
+            return
+        for reader in ([peer[who], who] if requested else [peer[who]]):
+            r = L.read(reader, None, 0)
+            if r[0] == "error":
+                viol("c01:read-failed", "%s processing a KeyUpdate raised %s" % (reader, R.lab.exc_class(r[1])))
+                return
+            if r[0] == "ok" and r[1]:
+                got[reader] += r[1]        # (nothing is pending when this is called)
+        ctx.count("live:keyupdates")
+
     def do_read(who, mx, mn):
         res = L.read(who, max=mx, min=mn)
         ops.append(("r", who, mx, mn))
@@ -575,6 +608,19 @@ def run_live(ctx, cfg, script=None, record=True):
                 drain(peer[who])
             for who in ("client", "server"):
                 drain(who)
+        # TLS 1.3: KeyUpdate rounds (requested and unrequested, from both sides) interleaved with data
+        if cfg["ver"] >= (3, 4):
+            for rnd in range(3):
+                for who in ("client", "server"):
+                    for requested in (True, False):
+                        if failed[0]:
+                            break
+                        do_keyupdate(who, requested)
+                        for w in (who, peer[who]):
+                            if failed[0]:
+                                break
+                            do_write(w, rb(rng, rng.choice([1, 17, 200, min(limits[w] + 1, 1200)])))
+                            drain(peer[w])
     else:
         for op in script:
             if op[0] == "w":
@@ -582,6 +628,8 @@ def run_live(ctx, cfg, script=None, record=True):
                 do_write(op[1], data)
             elif op[0] == "s":
                 set_size(op[1], op[2])
+            elif op[0] == "ku":
+                do_keyupdate(op[1], op[2])
             elif op[0] == "ws":
                 data = bytes.fromhex(op[3]) if op[3] is not None else rb(rng, op[2])
                 do_write_suspended(op[1], data, op[4], op[5])
@@ -664,6 +712,8 @@ def ucfg(d):
 def live_streams(ctx):
     budget = ctx.pick(150, 1000)
     cfgs = list(live_configs(ctx))
+    # multi-step histories (resumed connections) first: nothing of a whole family is lost to the time budget
+    cfgs.sort(key=lambda c: 0 if c.get("resume") else 1)
     if ctx.thorough():
         ctx.rng.shuffle(cfgs)       # whatever does not fit into the budget is spread over all dimensions
     for cfg in cfgs:
